@@ -6,6 +6,8 @@ def hkey(r, why=None):
     why = why or r["why"]
     if why.startswith("asterisk-form"):
         return "C01:target:asterisk-form:" + r["route"]
+    if why.startswith("options-empty-path"):
+        return "C01:target:options-empty-path:" + r["route"]
     if why.startswith("field "):
         name = why.split()[1].rstrip(":")
         # fields net/http treats in a way of its own are told apart by the pool item that triggers it
@@ -37,9 +39,15 @@ def run(ctx):
     ctx.mc("H1Conn.tla", "MC_H1Conn.cfg")
     binp = ctx.build()
     recs, g, d, _ = ctx.gen("HTTPMsg.tla", "GEN_HTTPMsg_%s.cfg" % ("Q" if q else "T"))
-    out = ctx.run_vh(binp, ["h1-headers"], cases=recs, timeout=3000)
+    sw = [r for r in recs if "serverWide" in r]
+    recs = [r for r in recs if "serverWide" not in r]
+    if not sw:
+        raise vlib.Infra("HTTPMsg printed no serverWide table")
+    table = sorted(sw[0]["serverWide"], key=lambda x: (x["form"], x["route"]))
+    out = ctx.run_vh(binp, ["h1-headers", "--arg", "serverwide=" + ",".join("%s/%s/%s" % (x["form"], x["route"], x["want"]) for x in table)],
+                     cases=recs, timeout=3000)
     out, crashed = ctx.nocrash(out, "C01:crash")
-    if not crashed and len(out) != len(recs) + 3:      # + the asterisk form on each route
+    if not crashed and len(out) != len(recs) + len(table):      # + the server-wide questions
         raise vlib.Infra("h1-headers: %d results for %d cases" % (len(out), len(recs)))
     for r in out:
         ctx.evaluations += 1
